@@ -177,6 +177,9 @@ func reorderSections(f fixtureFile) (fixtureFile, error) {
 	return fixtureFile{f.ptr, out.Bytes(), *parsed}, nil
 }
 
+// setupReordered builds the "reordered" fixture (set in init below; also used by the C19 family).
+var setupReordered func()
+
 func init() {
 	wide := [][]map[string]any{
 		append(hitRows("w", "x", 330), map[string]any{"id": "miss", "p": "y", "k": "other"}),
@@ -198,7 +201,7 @@ func init() {
 	setupMany := buildFixture("manysmall", [][]map[string]any{many})
 	fixtureHits["manysmall"] = 7
 	// "small" with every file's filter sections in reverse block order
-	setupReordered := func() {
+	setupReordered = func() {
 		setupSmall()
 		if fixtures["reordered"] != nil {
 			return
